@@ -725,9 +725,12 @@ func textHash(text string, parsed bool) uint64 {
 const statsBatch = 256
 
 func worker(w *core.Worker) {
-	debug.SetMaxStack(16 << 20) // a runaway recursion dies quickly instead of eating 1 GB per worker
+	debug.SetMaxStack(8 << 20) // a runaway recursion dies quickly instead of eating 1 GB per worker
 	installHook()
 	if len(w.Args) >= 2 && w.Args[0] == "file" {
+		if w.Only < 0 && w.Start > 0 {
+			return // restarted after the single case killed the previous worker: nothing is left
+		}
 		data, err := os.ReadFile(w.Args[1])
 		if err != nil {
 			fmt.Fprintln(os.Stderr, err)
@@ -1016,6 +1019,7 @@ func run(c *core.Ctx) {
 		N:       16,
 		Args:    []string{strconv.FormatInt(deadline.Unix(), 10)},
 		Silence: 45 * time.Second,
+		Confirm: 1, // a death is confirmed once (alone) and then re-run by diagnoseDeath: 3 deterministic runs
 		Env:     workerEnv,
 		OnRecord: func(shard int, raw json.RawMessage) {
 			var r record
